@@ -395,7 +395,7 @@ func (e *Engine) bindClauses(bc *BoundContract) error {
 	for i := range fc.Clauses {
 		cl := &fc.Clauses[i]
 		switch cl.Kind {
-		case "requires", "ensures", "invariant", "decreases", "modifies", "fresh", "assert", "split", "appends", "appendsAll", "copies", "mapStore", "mapDelete":
+		case "requires", "ensures", "invariant", "decreases", "modifies", "fresh", "assert", "assume", "split", "appends", "appendsAll", "copies", "mapStore", "mapDelete":
 			if ci >= len(calls) {
 				return fmt.Errorf("%s:%d: clause/statement mismatch", fc.File, cl.Line)
 			}
@@ -406,7 +406,7 @@ func (e *Engine) bindClauses(bc *BoundContract) error {
 				bc.Requires = append(bc.Requires, ClauseExpr{call.Args[0], cl, bc})
 			case "ensures":
 				bc.Ensures = append(bc.Ensures, ClauseExpr{call.Args[0], cl, bc})
-			case "assert":
+			case "assert", "assume":
 				bc.Asserts = append(bc.Asserts, ClauseExpr{call.Args[0], cl, bc})
 			case "appends":
 				bc.Appends = append(bc.Appends, [2]ast.Expr{call.Args[0], call.Args[1]})
